@@ -229,3 +229,14 @@ contract(TR + "query_ast_visitor.get_as_ROOT", props=["C03", "C09"],
              ("dict_keys_name_the_columns_in_order@C03", "implies(not isinst(final_r, '" + TTREEREP + "') and isinst(final_values, '" + DICTC + "'), final_g_dk)"),
              ("default_names_are_positional@C03", "implies(not isinst(final_r, '" + TTREEREP + "') and isinst(final_values, '" + TUPC + "'), final_g_ok)"),
          ])
+
+# ---- small plumbing: a representation that must be a value, index nodes ---------------------------------------------------------------------------
+contract(TR + "query_ast_visitor.get_rep_value", props=["C09", "C01"],
+         params=dict(self=QV, node=Ref, retain_scope=Bool), result=VAL, defaults=dict(retain_scope="False"),
+         requires=CVC_REQUIRES + [("node", "node != None")], modifies=CVC_MODIFIES, may_raise=["Exception"], strict=False,
+         ensures=CVC_ENSURES + [("a_value_or_refused@C09", "result != None and live(result) and isinst(result, '" + CVAL + "') and field(node, 'rep') == result"),
+                                ("retain_scope@C01", "implies(retain_scope, seq_eq(cursor(self), old(cursor(self))))")])
+contract(TR + "query_ast_visitor.visit_Index", props=["C04", "C01"],
+         params=dict(self=QV, node=RefOf("ast.Index")), requires=CVC_REQUIRES + [("value", "field(node, 'value') != None and live(field(node, 'value'))")],
+         modifies=CVC_MODIFIES, may_raise=["Exception"], strict=False, local_sorts=dict(v=REP),
+         ensures=CVC_ENSURES + [("index_is_its_value@C04", "rep_of(node) != None and rep_of(node) == final_v")])
